@@ -71,13 +71,13 @@ func Execute(t *testing.T, scn *Scenario, tape []int32) *Run {
 			}
 		}()
 		var m0, m1 runtime.MemStats
-		if scn.Prop == "C07" {
+		if scn.Prop == "C07" || scn.Prop == "C06" {
 			runtime.ReadMemStats(&m0)
 		}
 		synctest.Test(t, func(t *testing.T) {
 			execIn(t, scn, tape, run)
 		})
-		if scn.Prop == "C07" {
+		if scn.Prop == "C07" || scn.Prop == "C06" {
 			runtime.ReadMemStats(&m1)
 			run.AllocBytes = m1.TotalAlloc - m0.TotalAlloc
 		}
